@@ -108,9 +108,11 @@ CLAIMED = {
     "C14": dict(
         text=("Decides the mechanism the property rests on: (1) a complete inventory of every variable with static or thread "
               "storage duration under include/chaiscript, in every template instantiation - each is constexpr, const of "
-              "arithmetic/char-pointer type, or one of five allow-listed objects with a stated reason, so no mutable "
-              "process-wide state exists through which one engine could see another's variables, functions, types, conversions "
-              "or used-file records; (2) the per-thread store keys its thread_local map by a const id taken from a "
+              "arithmetic/char-pointer type, or one of three allow-listed objects with a stated reason (the per-thread store, the "
+              "id counter, the keyword set); three objects fail this and are listed known findings with a replay - the "
+              "process-wide Boxed_Value singletons for true/false/void, whose attribute map is writable through the const "
+              "handle; apart from them no mutable process-wide state exists through which one engine could see another's "
+              "variables, functions, types, conversions or used-file records; (2) the per-thread store keys its thread_local map by a const id taken from a "
               "process-wide atomic counter in every constructor (never an address), uses only that key, is not copyable, and any "
               "further static/thread_local object inside Thread_Storage (a lookup cache) is matched against that id, never "
               "against the object's address - "
@@ -172,7 +174,9 @@ CLAIMED = {
               "(evaluation is const and runs concurrently); no non-recursive mutex is held across a call that re-acquires it "
               "or can reach script/C++ callbacks; a lookup of a guarded table and the update that depends on it lie in one critical "
               "section, or the update cannot overwrite / re-tests (no lost registration without a data race); the single "
-              "shared parser object parses with a fresh local parser. use()'s "
+              "shared parser object parses with a fresh local parser; no Boxed_Value with static storage duration is shared "
+              "mutable state - three objects (the true/false/void singletons) fail this and are listed known findings "
+              "with a ThreadSanitizer replay. use()'s "
               "exactly-once clause is decided in C19 R19.3. Not decided: per-thread results equal single-threaded runs; "
               "registration visibility timing; races the script itself creates on shared global values."),
         technique="lock-set analysis with requirement propagation over the resolved call graph; guarded-by table; mutable/field inventory",
